@@ -312,7 +312,7 @@ def rand_scripted(rng, **kw):
 def rand_sorted(rng, **kw):
     d = {"kind": "sorted", "algo": rng.choice(["greedy", "rr"]), "sort": rng.choice(SORTS),
          "est": rng.choice([None, None, "rampdown", "fixed"]), "unint": rng.random() < 0.4,
-         "inc": rng.choice([0.1, 0.5, 1])}
+         "inc": rng.choice([0.1, 0.5, 1]), "over": rng.random() < 0.08}
     d.update(kw)
     return d
 
@@ -397,8 +397,14 @@ def typed_schedule(plain, rng, np=None):
 # ---------------------------------------------------------------- scenarios
 def scenario(rng, sched="scripted", nmax=6, sess_max=7, horizon=25, kinds=("EVSE", "DB", "FR"),
              bkinds=("ideal", "l2c", "l2s"), noise_p=0.0, constraint_free_p=0.2, big=False,
-             sid_style="x", recompute_p=0.4, bind=None, period=None, **skw):
+             sid_style="x", recompute_p=0.4, bind=None, period=None, inf_evse_p=0.06, **skw):
     net = rand_network(rng, nmax=nmax, kinds=kinds, constraint_free_p=constraint_free_p, bind=bind)
+    if sched in ("scripted", "uncontrolled") and rng.random() < inf_evse_p:
+        # stations built as the library's default EVSE (no upper end: max_rate = inf); the uncontrolled baseline then sends an
+        # infinite pilot, and the network's limit arrays hold inf
+        for s_ in net["stations"]:
+            if s_["evse"]["t"] == "EVSE" and rng.random() < 0.7:
+                s_["evse"] = dict(s_["evse"], max=float("inf"))
     sessions = rand_sessions(rng, net, nmax=sess_max, horizon=horizon, bkinds=bkinds, noise_p=noise_p,
                              big=big, sid_style=sid_style)
     if not sessions:
